@@ -3,7 +3,7 @@ import vlib
 CFG = dict(
     imports=["From Verif.Common Require Import Cas.", "From Verif.C19 Require Import Model.", "From Verif.C20 Require Import Model Spec."],
     checker="check_case",
-    n=dict(quick=50, thorough=1500),
+    n=dict(quick=50, thorough=600),
     shard=20,
     deps=["C19"],
     harness_dirs=["C19", "C20"],
